@@ -22,9 +22,11 @@ static struct { int k, add, fn, ud, mask; } script[32];
 static int n_script, n_calls;
 static struct { int fn, ud, type; } calls[64];
 
+/* the real event type the abstract type "net" (= an event type other than TTX_PAGE) stands for in this behaviour; command M */
+static int net_real = VBI_EVENT_NETWORK;
 static int real_mask(int m)
 {
-	return ((m & 1) ? VBI_EVENT_TTX_PAGE : 0) | ((m & 2) ? VBI_EVENT_NETWORK : 0) | ((m & 4) ? VBI_EVENT_CAPTION : 0);
+	return ((m & 1) ? VBI_EVENT_TTX_PAGE : 0) | ((m & 2) ? net_real : 0) | ((m & 4) ? (VBI_EVENT_CAPTION & ~net_real) : 0);
 }
 static void h1(vbi_event *ev, void *ud);
 static void h2(vbi_event *ev, void *ud);
@@ -56,8 +58,8 @@ static void report(const char *extra)
 	for (eh = vbi->handlers; eh; eh = eh->next) n++;
 	printf("{\"calls\":[");
 	for (i = 0; i < n_calls && i < 64; i++) printf("%s[%d,%d]", i ? "," : "", calls[i].fn, calls[i].ud);
-	printf("],\"em\":%d,\"n\":%d%s}\n", ((em & VBI_EVENT_TTX_PAGE) ? 1 : 0) | ((em & VBI_EVENT_NETWORK) ? 2 : 0)
-	       | ((em & VBI_EVENT_CAPTION) ? 4 : 0), n, extra);
+	printf("],\"em\":%d,\"n\":%d%s}\n", ((em & VBI_EVENT_TTX_PAGE) ? 1 : 0) | ((em & net_real) ? 2 : 0)
+	       | ((em & VBI_EVENT_CAPTION & ~net_real) ? 4 : 0), n, extra);
 }
 
 int main(void)
@@ -72,7 +74,12 @@ int main(void)
 			vbi = vbi_decoder_new();
 			ttx_tx_init(&tx, vbi);
 			n_script = 0;
+			net_real = VBI_EVENT_NETWORK;
 			printf("{\"reset\":1}\n");
+			break;
+		case 'M':        /* M <hex>: real event type of the abstract type "net" until the next reset (no output line) */
+			sscanf(line + 1, "%x", &a);
+			net_real = a;
 			break;
 		case 'O':
 			sscanf(line + 1, "%15s %d %d %d", kind, &a, &b, &c);
